@@ -184,12 +184,12 @@ package protocol
 //@   ensures len(s.unreadBuf) > 0 ==> isProtoBuf(baseof(s.unreadBuf))
 //@   ensures err == nil && len(b) > 0 ==> n > 0
 //@   ensures err != nil ==> n == 0
-//@   // no error (end of stream, timeout, input error) is reported while bytes that were already
-//@   // taken out of the receive queue are still waiting for the application (C01, C03)
-//@   ensures [C01 C03] err != nil ==> old(len(s.unreadBuf)) == 0
 //@   ensures [C19] err == nil && !s.isClient && s.uploadBytes != nil ==> ghost(added) == old(ghost(added)) + mathint(n)
 //@   ensures [C19] err != nil || s.isClient || s.uploadBytes == nil ==> ghost(added) == old(ghost(added))
 //@   ensures [C15] s.readDeadline.v == old(s.readDeadline.v)
+//@   // no error (end of stream, timeout, input error) is reported while bytes that were already
+//@   // taken out of the receive queue are still waiting for the application (C01, C03)
+//@   ensures [C01 C03] err != nil ==> old(len(s.unreadBuf)) == 0
 //@   loop 1:
 //@     modifies b[..], s.unreadBuf, s.state
 //@     invariant 0 <= n && n <= len(b) && len(b) > 0
@@ -197,6 +197,7 @@ package protocol
 //@     invariant ghost(qpos) >= mathint(len(s.unreadBuf))
 //@     invariant ghost(added) == old(ghost(added))
 //@     invariant len(s.unreadBuf) > 0 ==> isProtoBuf(baseof(s.unreadBuf))
+//@     invariant n == 0 ==> len(s.unreadBuf) == old(len(s.unreadBuf))
 //@     // C15: whenever a read deadline is in force the wait below is armed with it
 //@     invariant [C15] old(s.readDeadline.v) != 0 ==> timeC != nil
 //@
